@@ -19,6 +19,8 @@ func init() {
 		Assumptions: []string{"timestamps are normalised (0 <= nanos < 1e9)"},
 		Run:         runC18,
 		Controls: []Control{
+			{Name: "mode-magnitude-through-the-active-index", File: "pkg/trait/electricpb/modepb/magnitude.go", Old: "\treturn segmentpb.MagnitudeAt(t.Sub(tOrST(t, mode)), mode.GetSegments()...)", New: "\t_, i := ActiveAt(t, mode)\n\tif i >= len(mode.GetSegments()) {\n\t\treturn 0, false\n\t}\n\treturn mode.GetSegments()[i].Magnitude, true", Expect: "R18.10"},
+			{Name: "default-start-hoisted-out-of-the-alignment-loop", File: "pkg/trait/electricpb/modepb/sum.go", Old: "\t\tfor i, mode := range modes {\n\t\t\tst := latest\n", New: "\t\tst := latest\n\t\tfor i, mode := range modes {\n", Expect: "R18.11"},
 			{Name: "revert-F67-negative-tail-dropped", File: "pkg/trait/electricpb/segmentpb/sum.go", Old: "last.Length == nil && last.Magnitude == 0", New: "last.Length == nil && last.Magnitude <= 0", Expect: "R18.9"},
 			{Name: "duration-positive-by-nanos", File: "pkg/trait/electricpb/segmentpb/magnitude.go", Old: "\treturn d.AsDuration() > 0\n", New: "\treturn d.GetNanos() > 0\n", Expect: "R18.8"},
 			{Name: "revert-F48-empty-period-intersects", File: "pkg/time/period.go", Old: "\tif p1lower.CompareTo(p1upper) >= 0 || p2lower.CompareTo(p2upper) >= 0 {\n\t\treturn false\n\t}\n", New: "", Expect: "R18.3"},
@@ -48,6 +50,10 @@ func runC18(c *an.Ctx) {
 	r186(c)
 	r187(c)
 	c.Min("R18.6", 5)
+	r1811(c, "R18.11")
+	c.Min("R18.11", 1)
+	r1810(c, "R18.10")
+	c.Min("R18.10", 4)
 	r189(c, "R18.9")
 	c.Min("R18.9", 2)
 	r188whole(c, "R18.8")
@@ -899,4 +905,116 @@ func r189(c *an.Ctx, rule string) {
 		})
 	}
 	c.Count("magnitude_zero_tests", n)
+}
+
+// r1810: the mode functions read a mode as its segment list placed at its start time: each of them that has a
+// namesake in the segment package (ActiveAt, MagnitudeAt, Cut, Shift, Sum) is defined through that namesake, which
+// is where the step-function reading lives - the guard for offsets before the start, zero-length segments, the
+// open-ended tail. A mode function re-implemented on top of another helper drops one of those cases (MagnitudeAt via
+// ActiveAt's index answers every time before the start with the first segment's magnitude).
+func r1810(c *an.Ctx, rule string) {
+	n := 0
+	seg := c.Prog.SSAPackage("pkg/trait/electricpb/segmentpb")
+	if seg == nil {
+		c.Unk(rule, "pkg/trait/electricpb/segmentpb", 0, "package not found")
+		return
+	}
+	for _, fn := range c.Prog.FuncsIn("pkg/trait/electricpb/modepb") {
+		if fn.Parent() != nil || fn.Object() == nil || !fn.Object().Exported() || c.Prog.IsGenerated(fn.Pos()) {
+			continue
+		}
+		twin := seg.Func(fn.Name())
+		if twin == nil {
+			continue
+		}
+		n++
+		calls := false
+		for _, f := range append([]*ssa.Function{fn}, an.TransparentCalleesOf(fn, 2)...) {
+			an.Instrs(f, func(in ssa.Instruction) {
+				if call, ok := in.(ssa.CallInstruction); ok && call.Common().StaticCallee() == twin {
+					calls = true
+				}
+			})
+		}
+		c.SawFunc(an.FuncName(fn))
+		c.Check(calls, rule, an.FuncName(fn)+"|is defined through the segment function of the same name", fn.Pos(), "calls segmentpb."+fn.Name(),
+			"the mode function no longer goes through segmentpb."+fn.Name()+": the step-function reading (offsets before the start, zero-length segments, the open tail) is re-implemented and a case is lost")
+	}
+	c.Count("mode_functions_with_a_segment_namesake", n)
+}
+
+// r1811: each mode is aligned by ITS OWN start time. In Sum's alignment loop the start time a mode is shifted by is
+// made afresh in every iteration (the latest start for a mode that has none, the mode's own otherwise). Kept across
+// iterations (the default hoisted out of the loop) a mode without a start time inherits the start of whichever mode
+// came before it, and the sum depends on the order of its arguments.
+func r1811(c *an.Ctx, rule string) {
+	fn := mustFunc(c, rule, "pkg/trait/electricpb/modepb", "", "Sum")
+	if fn == nil {
+		return
+	}
+	name := an.FuncName(fn)
+	c.SawFunc(name)
+	n, ok := 0, true
+	an.Instrs(fn, func(in ssa.Instruction) {
+		call, isCall := in.(*ssa.Call)
+		if !isCall || !strings.HasSuffix(an.CalleeName(call), "segmentpb.Shift") || len(call.Call.Args) == 0 {
+			return
+		}
+		for _, d := range an.ValuesAt(call.Call.Args[0]) {
+			sub, isSub := d.(*ssa.Call)
+			if !isSub || !strings.HasSuffix(an.CalleeName(sub), "time.Time).Sub") || len(sub.Call.Args) != 2 {
+				continue
+			}
+			n++
+			// the receiver: no phi on the way may be carried around the loop that contains the call
+			seen := map[ssa.Value]bool{}
+			var walk func(v ssa.Value)
+			walk = func(v ssa.Value) {
+				if v == nil || seen[v] {
+					return
+				}
+				seen[v] = true
+				phi, isPhi := v.(*ssa.Phi)
+				if !isPhi {
+					return
+				}
+				for i, p := range phi.Block().Preds {
+					if phi.Block().Dominates(p) && phi.Block().Dominates(call.Block()) && blockReaches(call.Block(), p) {
+						// a back edge into a header of a loop around the call: the value survives an iteration
+						if e := phi.Edges[i]; e != ssa.Value(phi) {
+							ok = false
+						}
+					}
+				}
+				for _, e := range phi.Edges {
+					walk(e)
+				}
+			}
+			walk(sub.Call.Args[0])
+		}
+	})
+	c.Check(ok && n > 0, rule, name+"|a mode is aligned by its own start time", fn.Pos(), "the start time is made afresh for every mode",
+		"the start time a mode is shifted by is carried over from the previous iteration of the alignment loop: a mode without a start time inherits the previous mode's, so the sum depends on the order of the modes")
+}
+
+// blockReaches: there is a path from a to b in the control-flow graph.
+func blockReaches(a, b *ssa.BasicBlock) bool {
+	seen := map[*ssa.BasicBlock]bool{}
+	var visit func(x *ssa.BasicBlock) bool
+	visit = func(x *ssa.BasicBlock) bool {
+		if x == b {
+			return true
+		}
+		if seen[x] {
+			return false
+		}
+		seen[x] = true
+		for _, s := range x.Succs {
+			if visit(s) {
+				return true
+			}
+		}
+		return false
+	}
+	return visit(a)
 }
